@@ -18,7 +18,7 @@ META = dict(
     explanation="The image is an arbitrary W x H array of symbols; the reported intensity is compared, as a term, with the window / band "
                 "statistic defined from the property statement over the same symbols.",
     bounds=dict(image="14 x 14 (20 x 20 thorough), every pixel symbolic", polylines="horizontal, vertical, diagonal, slope-1/2 'general', curved; 4..6 vertices",
-                layers="0, 1 (2 thorough)", placement="rescale in {(1,1),(2,1)}, offset in {(0,0),(1,2)}", lists="1..3 interfaces, with a repeated interface"),
+                layers="0, 1 (2 thorough)", placement="rescale in {(1,1),(2,1),(1,2)} (+(2,3) thorough), offset in {(0,0),(1,2),(0,1),(1,0)}", lists="1..3 interfaces, with a repeated interface"),
     outside=["vertex positions are concrete", "8-bit saturation", "image sizes beyond 20 x 20", "read_myosin's file handling (PIL.Image.open)"],
     assumptions=["'average' normalisation: all pixels positive, the mean intensity is non-zero (division not forked on)",
                  "PIL getpixel((x, y)) reads pixel (int(x), int(y)) (truncation; measured on Pillow 12.3)", "np.median = median (If-term sorting network shim)"],
@@ -194,7 +194,8 @@ def repeated(env, layers):
 def jobs(tier):
     js = []
     quick = tier == "quick"
-    placements = [((1, 1), (0, 0)), ((1, 1), (1, 2))] if quick else [((1, 1), (0, 0)), ((1, 1), (1, 2)), ((1, 1), (2, 0))]
+    placements = [((1, 1), (0, 0)), ((1, 1), (1, 2)), ((2, 1), (0, 1)), ((1, 2), (1, 0))] if quick else \
+        [((1, 1), (0, 0)), ((1, 1), (1, 2)), ((1, 1), (2, 0)), ((2, 1), (0, 1)), ((1, 2), (1, 0)), ((2, 3), (1, 1))]
     for kinds in (["horizontal"], ["vertical", "diagonal"], ["general", "curved", "horizontal"]):
         for layers in ((0, 1) if quick else (0, 1, 2)):
             for integrate in (False, True):
@@ -204,10 +205,10 @@ def jobs(tier):
                             continue
                         js.append(Job(f"statistic-{'+'.join(kinds)}-L{layers}-int{int(integrate)}-{normalize}-r{rescale}-o{offset}", "c17:statistic",
                                       dict(kinds=kinds, layers=layers, integrate=integrate, normalize=normalize, rescale=list(rescale), offset=list(offset),
-                                           size=14 if quick else 20), budget_s=900, weight=3 if layers else 1,
+                                           size=(14 if quick else 20) * max(rescale) + 4), budget_s=900, weight=3 if layers else 1,
                                       opts=dict(div_policy="assume") if normalize else {}))
     for kind in ("horizontal", "general"):
-        for layers in ((0, 1) if quick else (0, 1, 2)):
+        for layers in (0, 1):      # 25-pixel median windows: the per-window homogeneity lemma is not decided within 60 s
             for integrate in (False, True):
                 # symbolic factor where the statistic is a linear form; for median windows (If-networks) two concrete factors
                 for kval in (None,):
